@@ -20,22 +20,27 @@ var c18Scalar = map[string]bool{"add": true, "sub": true, "mul": true, "div": tr
 
 const c18Known = "C18-andor-shortcut"
 
-// lazyShortcut: what a short-circuit jump yields for and/or over these
-// operands when the operator itself is bypassed: the first deciding boolean,
-// else the last operand if it is a boolean.
-func lazyShortcut(name string, ops []interface{}) (bool, bool) {
+// lazyShortcut: can a short-circuit jump that bypasses the and/or operator
+// yield b for these operands? It yields the first deciding boolean in
+// evaluation order, else the last evaluated operand if that is a boolean;
+// Reordering may permute the evaluation order, so: if some operand is a
+// deciding boolean the result is that deciding value, otherwise it is one of
+// the boolean operands.
+func lazyShortcut(name string, ops []interface{}, b bool) bool {
 	and := term.IsAnd(name)
+	anyBool, deciding := false, false
 	for _, o := range ops {
-		if b, ok := o.(bool); ok && b != and {
-			return b, true
+		if v, ok := o.(bool); ok {
+			anyBool = true
+			if v != and {
+				deciding = true
+			}
 		}
 	}
-	if len(ops) > 0 {
-		if b, ok := ops[len(ops)-1].(bool); ok {
-			return b, true
-		}
+	if deciding {
+		return b != and
 	}
-	return false, false
+	return anyBool && b == and
 }
 
 func c18(r *rep.Run) {
@@ -54,7 +59,7 @@ func c18(r *rep.Run) {
 	vals = append(vals, true, false)
 	nScalar := len(vals)
 	vals = append(vals, "a", []int64{1})
-	r.Rule = "every scalar operator and every alias (33 names) x every operand count 0..4 x EVERY operand tuple over {min, min+1, -2, -1, 0, 1, 2, max-1, max, true, false, \"a\", (1)} (count 4: int/bool values only), operands written as literals and bound through variables, optimisations off and default. Oracle R4: wrapping left fold for arithmetic (min/-1 = min, min%-1 = 0), a zero divisor anywhere after the first operand is an error, comparisons and between against int64 order, n-ary eq = all equal, ne = not eq, le = not gt, ge = not lt, boolean folds, wrong counts and wrong types are errors; every alias gives exactly the outcome of its named form on every tuple. non-trivial = tuples containing an extreme value, a zero divisor or a wrong-typed operand"
+	r.Rule = "every scalar operator and every alias (33 names) x every operand count 0..4 x EVERY operand tuple over {min, min+1, -2, -1, 0, 1, 2, max-1, max, true, false, \"a\", (1)} (count 4: int/bool values only), operands written as literals, bound through variables, and mixed (first / last operand a variable, the rest literals), optimisations off and default. Oracle R4: wrapping left fold for arithmetic (min/-1 = min, min%-1 = 0), a zero divisor anywhere after the first operand is an error, comparisons and between against int64 order, n-ary eq = all equal, ne = not eq, le = not gt, ge = not lt, boolean folds, wrong counts and wrong types are errors; every alias gives exactly the outcome of its named form on every tuple. non-trivial = tuples containing an extreme value, a zero divisor or a wrong-typed operand"
 	r.Assume = []string{"boundary alphabet of int64 (plus a few mid-range values in the thorough tier), not all 2^64 values", "errors are compared by presence only"}
 	var names []string
 	for n, c := range ref.Alias {
@@ -123,14 +128,15 @@ func c18(r *rep.Run) {
 			outcome := map[string]drive.Out{}
 			for _, name := range names {
 				want, werr := ref.Builtin(name, ops)
-				for form := 0; form < 2; form++ {
-					if form == 1 && j.ar == 0 {
+				for form := 0; form < 4; form++ {
+					// 0: all literals, 1: all variables, 2: first operand a variable, 3: last operand a variable
+					if form >= 1 && j.ar == 0 || form >= 2 && j.ar < 2 {
 						continue
 					}
 					var sb strings.Builder
 					sb.WriteString("(" + name)
 					for k, o := range ops {
-						if form == 1 {
+						if form == 1 || (form == 2 && k == 0) || (form == 3 && k == len(ops)-1) {
 							sb.WriteString(" " + vars[k].Name)
 						} else {
 							sb.WriteString(" " + c18Lit(o))
@@ -167,7 +173,7 @@ func c18(r *rep.Run) {
 						d := map[string]interface{}{"source": src, "operands": fmt.Sprint(ops), "config": o.String(), "got": got.String(), "want": refOut(want, werr).String()}
 						// the known finding: the evaluator's short-circuit jump bypasses and/or
 						if (term.IsAnd(name) || term.IsOr(name)) && werr != nil && got.Err == nil && got.Panic == nil {
-							if b, ok := lazyShortcut(name, ops); ok && got.Val == interface{}(b) && r.KnownOpen(c18Known) {
+							if b, isB := got.Val.(bool); isB && lazyShortcut(name, ops, b) && r.KnownOpen(c18Known) {
 								r.HitKnown(c18Known)
 								continue
 							}
@@ -182,7 +188,7 @@ func c18(r *rep.Run) {
 				if canon == name {
 					continue
 				}
-				for form := 0; form < 2; form++ {
+				for form := 0; form < 4; form++ {
 					for oi := range opts {
 						a, okA := outcome[fmt.Sprintf("%s/%d/%d", name, form, oi)]
 						b, okB := outcome[fmt.Sprintf("%s/%d/%d", canon, form, oi)]
